@@ -20,6 +20,11 @@ CLAIMED = {
          "seeded search over thread interleavings (line granularity inside Pool/Worker), job timings, pool sizes 1..3 and close() racing completions; oracle: each job/connection served exactly once or refused with reason, live workers <= THREADPOOL_SIZE, close() terminates and every worker exits; violations are minimised and replay exactly",
          "samples schedules, does not enumerate them; pre-emption only between source lines of the listed code objects; simulated Event/Lock/sockets are trusted to model threading/TCP faithfully",
          "DESIGN.md section 4 C18"),
+ "C15": ("exploration",
+         "deterministic simulation: seeded baton scheduler with source-line pre-emption over real NameServer/MemoryStorage/SqlStorage; linearizability check of the recorded history against a sequential map model",
+         "seeded search over thread interleavings (line granularity inside NameServer and MemoryStorage; storage-call granularity on a real sqlite file) of 2-4 threads x 1-2 operations on shared names; every history (<= 8 operations, invoke/return stamped by global event number) is checked exhaustively for linearizability against a sequential map model incl. the final listing; any exception other than NamingError is an internal error",
+         "samples schedules, does not enumerate them; no pre-emption inside a single source line or inside sqlite; operations are called on the NameServer object directly, not through a daemon",
+         "DESIGN.md section 4 C15"),
 }
 PENDING = "claimed in DESIGN.md but its check is not built yet; see DESIGN.md section 4"
 ALL = ["C%02d" % i for i in range(1, 21)]
